@@ -137,7 +137,10 @@ class TemplateDPADistinguisherMixin(_BaseTemplateAttackDistinguisherMixin):
         return data.shape[1]
 
     def get_template_index(self, data, i):
-        return data[:, i]
+        # Templates are stored in partitions order: map each hypothesis value to the index of its class.
+        values = _np.asarray(self.partitions)
+        order = _np.argsort(values)
+        return order[_np.searchsorted(values, data[:, i], sorter=order)]
 
     @property
     def _distinguisher_str(self):
